@@ -14,6 +14,7 @@ def H(name, srcs, variant='rel', **kw):
 
 
 CHECKS = {}
+WORDS_DIR = os.path.join(os.path.dirname(os.path.abspath(__file__)), 'build', 'run', 'words')
 
 CHECKS['C18'] = dict(
     level='exploration',
@@ -273,6 +274,79 @@ CHECKS['C17'] = dict(
              plan={'quick': 'functions=400000,programs=320,hashes=16', 'thorough': 'functions=100000000,programs=40000,hashes=1000'}),
     ],
 )
+
+CHECKS['C19'] = dict(
+    level='exploration',
+    rule='ProgramGen cases (all shapes incl. IMUL_RCP-saturated programs that exhaust the 12 literal registers and switch to ldr-literal, boundary immediates, src==dst forms, CBRANCH/CFROUND-heavy) x fast (synthetic dataset) / '
+         'light (emitted SuperscalarHash code over a real cache) x v1/v2 x hard/soft AES x entry rounding mode; the A64 emitter runs on the host, its output plus the cross-assembled hand-written runtime is executed by an AArch64 '
+         'instruction-subset emulator with every access checked against the known regions. Oracle: r/f/e registers, 2 MiB scratchpad and final rounding mode == host interpreter on the same injected program. '
+         'Dataset: generated (start,count) ranges through the emitted randomx_init_dataset_aarch64 == initDatasetItem. Non-trivial: every distinct program / range',
+    assumptions=COMMON_ASSUME + ['emu/a64.hpp implements the Arm ARM semantics of the ~60 instruction forms used (every distinct executed word is cross-checked against llvm-objdump\'s decoding at the end of a run; unknown encodings are hard errors)',
+                                 'the one aarch64-only line outside the back-end (copy of eMask into reg.f in CompiledVm::execute) is performed by the harness and therefore not under test',
+                                 'cache maintenance / instruction-cache coherence is outside the emulated model'],
+    pre=lambda: _words_clean(), post=lambda V, p, t: _post_c19(V, p, t),
+    stages=[
+        dict(name='a64', env={'VERIF_WORDS_DIR': WORDS_DIR}, harness=H('c19', ['harness/c19_a64.cpp', 'emu/a64_host.cpp'], model=True, cflags=['-fno-access-control'], ldflags=PROG_LD + ['-Wl,--wrap=allocMemoryPages'], extra_objs=[lambda V: V.ensure_cross_blob('a64')]),
+             plan={'quick': 'a64_prog=320,a64_dataset=64', 'thorough': 'a64_prog=100000,a64_dataset=20000'}),
+    ],
+)
+
+
+
+def _words_clean():
+    import shutil
+    shutil.rmtree(WORDS_DIR, ignore_errors=True)
+    os.makedirs(WORDS_DIR, exist_ok=True)
+
+
+def _objdump_crosscheck(arch):
+    """Every distinct instruction word the emulator executed is disassembled by llvm-objdump; the mnemonic must match the
+    emulator's own decoding. Returns (n_words, list of mismatches)."""
+    import glob, subprocess, struct, re
+    words = {}
+    for f in glob.glob(os.path.join(WORDS_DIR, arch + '-w*.txt')):
+        for line in open(f):
+            p = line.split()
+            if len(p) == 2:
+                words[int(p[0], 16)] = p[1]
+    if not words:
+        return 0, ['no instruction words recorded']
+    keys = sorted(words)
+    asm = os.path.join(WORDS_DIR, arch + '.S')
+    obj = os.path.join(WORDS_DIR, arch + '.o')
+    if arch == 'a64':
+        open(asm, 'w').write('.text\n' + ''.join('.inst 0x%08x\n' % k for k in keys))
+        subprocess.run(['clang', '--target=aarch64-linux-gnu', '-march=armv8-a+crypto', '-c', asm, '-o', obj], check=False)
+        cmd = ['llvm-objdump', '-d', '--mattr=+crypto,+neon', '-M', 'no-aliases', obj]
+    else:
+        open(asm, 'w').write('.text\n.option norvc\n' + ''.join(('.2byte 0x%04x\n' % k) if (k & 3) != 3 else ('.4byte 0x%08x\n' % k) for k in keys))
+        subprocess.run(['clang', '--target=riscv64-linux-gnu', '-march=rv64gc', '-mno-relax', '-c', asm, '-o', obj], check=False)
+        cmd = ['llvm-objdump', '-d', '--mattr=+m,+a,+f,+d,+c', '-M', 'no-aliases', obj]
+    out = subprocess.run(cmd, stdout=subprocess.PIPE, stderr=subprocess.STDOUT, text=True).stdout
+    mn = []
+    for line in out.splitlines():
+        m = re.match(r'^\s*[0-9a-f]+:\s+((?:[0-9a-f]{2} )+|[0-9a-f]{4,8}\s)\s*(\S+)', line)
+        if m:
+            mn.append(m.group(2))
+    bad = []
+    if len(mn) != len(keys):
+        return len(keys), ['objdump produced %d lines for %d words' % (len(mn), len(keys))]
+    # architectural aliases llvm-objdump prints even with -M no-aliases: (emulator's canonical name, printed alias)
+    alias_pairs = {('movn', 'mov'), ('movz', 'mov'), ('orr', 'mov'), ('add', 'mov'), ('ins', 'mov'), ('umov', 'mov'), ('ror', 'rorv'), ('ror', 'ror'), ('lsl', 'lslv'), ('lsr', 'lsrv'), ('asr', 'asrv'), ('extr', 'ror'),
+                   ('bfm', 'bfi'), ('bfm', 'bfxil'), ('ubfm', 'lsr'), ('ubfm', 'lsl'), ('ubfm', 'ubfx'), ('ubfm', 'uxtw'), ('sbfm', 'asr'), ('sbfm', 'sxtw'), ('madd', 'mul'), ('sub', 'neg'), ('subs', 'cmp'), ('ands', 'tst')}
+    for k, o in zip(keys, mn):
+        mine = re.sub(r'\(.*\)', '', words[k])
+
+        ok = (o == mine) or (mine, o) in alias_pairs or (mine == 'b.cond' and o.startswith('b.')) or (mine == 'prfm' and o.startswith('prfm'))
+        if not ok:
+            bad.append('%08x: emulator decodes %s, llvm-objdump says %s' % (k, words[k], o))
+    return len(keys), bad
+
+
+def _post_c19(V, prop, tier):
+    n, bad = _objdump_crosscheck('a64')
+    return dict(label='emulator-decode-crosschecked-words', count=n, problems=bad[:10])
+
 
 C02_AUX = os.path.join(os.path.dirname(os.path.abspath(__file__)), 'build', 'run', 'c02-digests')
 
